@@ -157,12 +157,16 @@ def ensure_facts(config='default', repo=None, quiet=False):
         lock.close()
 
 
-def _prune_cache(keep, limit=600):
+def _prune_cache(keep, limit=1500, min_age=7200):
+    """drop the oldest fact sets beyond `limit` — never one younger than `min_age` seconds: another process replaying
+    a patch set may be reading it (a half-deleted set makes a check see a tree without its binary crate)"""
     try:
+        now = time.time()
         ents = [(os.path.getmtime(os.path.join(CACHE, e)), e) for e in os.listdir(CACHE) if e != keep]
         ents.sort()
-        for _, e in ents[:-limit] if len(ents) > limit else []:
-            shutil.rmtree(os.path.join(CACHE, e), ignore_errors=True)
+        for mt, e in ents[:-limit] if len(ents) > limit else []:
+            if now - mt > min_age:
+                shutil.rmtree(os.path.join(CACHE, e), ignore_errors=True)
     except OSError:
         pass
 
